@@ -314,6 +314,43 @@ CloneTail(items, k) == SubSeq(items, MinI(k, Len(items)) + 1, Len(items))
 \* root frames an interleaved-sample stream has pulled once it has yielded k samples
 IlFramesFor(k, ch) == (k + ch - 1) \div ch
 
+\* ITERATOR METHODS.  take / until_exhausted / the interleaved-sample iterator are `Iterator`s, and what
+\* C05 says about "the frames they yield" is said about the STREAM, however it is read: every provided
+\* method of Iterator (and ExactSizeIterator::len, and the std adaptors skip / step_by, which reach the
+\* iterator through nth) means what the corresponding number of `next` calls means.  State of a consumer
+\* = (items: its whole stream from where it was created, p: how many of them have been yielded).
+\* op(k):  next | nth(k) | find / position / any (predicate true at its k-th call, k >= 1) | all (false at
+\* its k-th call) | hint (size_hint) | len | drain (next until None, two more calls)       -- &mut self
+\*         count | last | fold | for_each | vec (collect) | skip(k) | step_by(k) (drained)  -- by value
+ItByValue == {"count", "last", "fold", "for_each", "vec", "skip", "step_by"}
+ItLists   == {"fold", "for_each", "vec", "drain", "skip", "step_by"}
+ItSingle  == {"next", "nth", "find", "last"}
+ItCalls(op, k) == CASE op = "next" -> 1 [] op = "nth" -> k + 1
+                    [] op \in {"find", "position", "any", "all"} -> k
+                    [] op \in {"hint", "len"} -> 0
+                    [] OTHER -> Inf                                   \* to the end of the stream
+ItPos(L, p, op, k) == MinI(L, p + ItCalls(op, k))                    \* items yielded after the call
+ItSome(v) == [k |-> "some", v |-> v]
+ItNone == [k |-> "none"]
+ItVal(v) == [k |-> "val", v |-> v]
+ItRet(items, p, op, k) ==
+  LET L == Len(items)
+      c == ItCalls(op, k)
+  IN CASE op \in {"next", "nth", "find"} -> IF p + c <= L THEN ItSome(items[p + c]) ELSE ItNone
+       [] op = "position" -> IF p + k <= L THEN ItSome(k - 1) ELSE ItNone
+       [] op = "any"      -> ItVal(p + k <= L)
+       [] op = "all"      -> ItVal(~(p + k <= L))
+       [] op \in {"len", "count"} -> ItVal(L - p)
+       [] op = "last"     -> IF p < L THEN ItSome(items[L]) ELSE ItNone
+       [] op = "skip"     -> [k |-> "items", v |-> SubSeq(items, MinI(L, p + k) + 1, L)]
+       [] op = "step_by"  -> [k |-> "items", v |-> [i \in 1..((L - p + k - 1) \div k) |-> items[p + 1 + (i - 1) * k]]]
+       [] op \in {"fold", "for_each", "vec", "drain"} -> [k |-> "items", v |-> SubSeq(items, p + 1, L)]
+       [] OTHER -> [k |-> "hint"]                                     \* size_hint: a relation, ItHintOK
+\* size_hint brackets the number of remaining items (the Iterator contract); take is exact
+ItHintOK(exact, rem, lo, hi) == IF exact THEN lo = rem /\ hi = rem ELSE lo <= rem /\ (hi = -1 \/ hi >= rem)
+\* root frames a consumer has pulled once it has yielded p items
+ItFrames(c, p, ch) == IF c = "il" THEN IlFramesFor(p, ch) ELSE p
+
 ---------------------------------------------------------------------------
 (* LAYER 2: transcription of the `impl Signal` blocks *)
 
